@@ -255,11 +255,30 @@ func c03Apply(p *core.Program, r *core.Report, fn *ssa.Function) {
 	type viol struct{ clause, detail string }
 	viols := map[string]string{}
 	nMutSites := map[ssa.Instruction]bool{}
-	rules := core.PathRules{
-		LoopBound: 2,
-		OnBranch:  func(s *core.PathState, cond ssa.Value) core.AB { return lenFact(s, cond) },
-		OnCall: func(s *core.PathState, c ssa.CallInstruction) []core.CallOutcome {
+	var onCallFor func(in *ssa.Function, logP *ssa.Parameter, depth int) func(s *core.PathState, c ssa.CallInstruction) []core.CallOutcome
+	onCallFor = func(in *ssa.Function, logP *ssa.Parameter, depth int) func(s *core.PathState, c ssa.CallInstruction) []core.CallOutcome {
+		return func(s *core.PathState, c ssa.CallInstruction) []core.CallOutcome {
 			cc := c.Common()
+			// a helper of the package that does part of the work (a loop moved out of Apply): its paths are enumerated
+			// with the same rules and each distinct combination of effects becomes one outcome of the call; appends to
+			// the slice it returns count as appends to the call's result
+			if g := cc.StaticCallee(); g != nil && g.Blocks != nil && depth < 2 && g != in && core.FuncPkgPath(g) == core.FuncPkgPath(fn) {
+				if _, isMut := c03Mutators[core.ObjName(core.CalleeObj(cc))]; !isMut {
+					if hl := eventCallbackParam(g); hl != nil {
+						passesLog := false
+						for i, fp := range g.Params {
+							if fp == hl && i < len(cc.Args) && cc.Args[i] == ssa.Value(logP) {
+								passesLog = true
+							}
+						}
+						if passesLog {
+							if outs := c03HelperOutcomes(g, hl, c, onCallFor(g, hl, depth+1)); outs != nil {
+								return outs
+							}
+						}
+					}
+				}
+			}
 			if b, ok := cc.Value.(*ssa.Builtin); ok && b.Name() == "append" && len(cc.Args) > 0 {
 				if root := sliceRoot(cc.Args[0]); root != nil {
 					return []core.CallOutcome{{Effects: []core.Effect{{Kind: "APPEND", Instr: c, Data: root}}}}
@@ -309,7 +328,12 @@ func c03Apply(p *core.Program, r *core.Report, fn *ssa.Function) {
 				}
 			}
 			return []core.CallOutcome{{Effects: []core.Effect{mut}}}
-		},
+		}
+	}
+	rules := core.PathRules{
+		LoopBound: 2,
+		OnBranch:  func(s *core.PathState, cond ssa.Value) core.AB { return lenFact(s, cond) },
+		OnCall:    onCallFor(fn, logP, 0),
 		OnExit: func(s *core.PathState, ret *ssa.Return, pan *ssa.Panic) {
 			if ret == nil || len(ret.Results) != 1 {
 				return
@@ -958,11 +982,18 @@ func c03ReevalLists(p *core.Program, r *core.Report, fn *ssa.Function) {
 }
 
 // sliceRoot: the unique empty MakeSlice a local slice value grows from (through phis and appends), or nil.
-func sliceRoot(v ssa.Value) *ssa.MakeSlice {
-	var root *ssa.MakeSlice
+func sliceRoot(v ssa.Value) ssa.Value {
+	var root ssa.Value
 	ok := true
 	seen := map[ssa.Value]bool{}
 	var walk func(v ssa.Value)
+	setRoot := func(x ssa.Value) {
+		if root != nil && root != x {
+			ok = false
+			return
+		}
+		root = x
+	}
 	walk = func(v ssa.Value) {
 		if seen[v] || !ok {
 			return
@@ -974,11 +1005,7 @@ func sliceRoot(v ssa.Value) *ssa.MakeSlice {
 				ok = false
 				return
 			}
-			if root != nil && root != x {
-				ok = false
-				return
-			}
-			root = x
+			setRoot(x)
 		case *ssa.Phi:
 			for _, e := range x.Edges {
 				walk(e)
@@ -986,6 +1013,12 @@ func sliceRoot(v ssa.Value) *ssa.MakeSlice {
 		case *ssa.Call:
 			if b, isB := x.Call.Value.(*ssa.Builtin); isB && b.Name() == "append" {
 				walk(x.Call.Args[0])
+				return
+			}
+			// the slice a helper of the package returns: empty unless the helper appended to it (c03HelperOutcomes
+			// re-roots those appends at the call)
+			if g := x.Call.StaticCallee(); g != nil && g.Blocks != nil && c03ReturnsGrownSlice(g) {
+				setRoot(x)
 				return
 			}
 			ok = false
@@ -1000,6 +1033,79 @@ func sliceRoot(v ssa.Value) *ssa.MakeSlice {
 	return root
 }
 
+// c03ReturnsGrownSlice: every return of g yields a slice rooted at one make([]T, 0, ...) of g, grown only by append.
+func c03ReturnsGrownSlice(g *ssa.Function) bool {
+	if g.Signature.Results().Len() != 1 {
+		return false
+	}
+	if _, isSlice := g.Signature.Results().At(0).Type().Underlying().(*types.Slice); !isSlice {
+		return false
+	}
+	rets := core.Returns(g)
+	if len(rets) == 0 {
+		return false
+	}
+	for _, ret := range rets {
+		if _, ok := sliceRoot(ret.Results[0]).(*ssa.MakeSlice); !ok {
+			return false
+		}
+	}
+	return true
+}
+
+// c03HelperOutcomes enumerates the paths of helper g with the caller's rules and turns each distinct set of effects
+// into one outcome of the call `at`. nil when the helper cannot be summarised (path budget).
+func c03HelperOutcomes(g *ssa.Function, logP *ssa.Parameter, at ssa.CallInstruction, onCall func(s *core.PathState, c ssa.CallInstruction) []core.CallOutcome) []core.CallOutcome {
+	var outs []core.CallOutcome
+	seen := map[string]bool{}
+	atVal, _ := at.(ssa.Value)
+	res := core.ExplorePaths(g, core.PathRules{
+		LoopBound: 2,
+		OnBranch:  func(s *core.PathState, cond ssa.Value) core.AB { return lenFact(s, cond) },
+		OnCall:    onCall,
+		OnExit: func(s *core.PathState, ret *ssa.Return, pan *ssa.Panic) {
+			if ret == nil {
+				return
+			}
+			var retRoot ssa.Value
+			if len(ret.Results) == 1 {
+				retRoot = sliceRoot(ret.Results[0])
+			}
+			var effs []core.Effect
+			var sig []string
+			for _, e := range s.Effects {
+				switch e.Kind {
+				case "MUT", "LOG", "SAME":
+					effs = append(effs, e)
+					sig = append(sig, e.Kind+":"+fmt.Sprint(e.Data))
+				case "APPEND":
+					if retRoot != nil && e.Data == any(retRoot) && atVal != nil {
+						effs = append(effs, core.Effect{Kind: "APPEND", Instr: at, Data: atVal})
+						sig = append(sig, "APPEND:ret")
+					}
+				}
+			}
+			out := core.CallOutcome{Effects: effs}
+			if len(ret.Results) == 1 {
+				if v := s.Val(ret.Results[0]); v != core.Unk {
+					out.Result = v
+					sig = append(sig, "=", fmt.Sprint(v))
+				}
+			}
+			sort.Strings(sig)
+			k := strings.Join(dedup(sig), "|")
+			if !seen[k] {
+				seen[k] = true
+				outs = append(outs, out)
+			}
+		},
+	})
+	if res.Truncated || len(outs) == 0 {
+		return nil
+	}
+	return outs
+}
+
 // lenFact decides `len(s) > 0`, `len(s) == 0`, `len(s) != 0`, `0 < len(s)` for a local slice that starts empty
 // and only grows by append: it is non-empty on exactly the paths that executed an append to it.
 func lenFact(s *core.PathState, cond ssa.Value) core.AB {
@@ -1007,7 +1113,7 @@ func lenFact(s *core.PathState, cond ssa.Value) core.AB {
 	if !ok {
 		return core.Unk
 	}
-	lenOf := func(v ssa.Value) *ssa.MakeSlice {
+	lenOf := func(v ssa.Value) ssa.Value {
 		c, ok := v.(*ssa.Call)
 		if !ok {
 			return nil
@@ -1017,7 +1123,7 @@ func lenFact(s *core.PathState, cond ssa.Value) core.AB {
 		}
 		return sliceRoot(c.Call.Args[0])
 	}
-	var root *ssa.MakeSlice
+	var root ssa.Value
 	op := b.Op
 	if r := lenOf(b.X); r != nil {
 		if n, isC := core.ConstInt(b.Y); !isC || n != 0 {
